@@ -154,3 +154,45 @@ def same_value_args(a1, a2):
         return False
     c1, c2 = set(a1.get("calls", [])), set(a2.get("calls", []))
     return c1 == c2 and all(is_pure_call(c) for c in c1)
+
+
+def resolve_leaf(leaf, acc, depth=4):
+    while depth and leaf in acc:
+        leaf = acc[leaf]
+        depth -= 1
+    return leaf
+
+
+def trans_writes(db, func, acc, depth=3, follow=None):
+    """Leaf fields written by `func` (a Func) or by callees up to `depth`
+    (callee pattern names filtered by follow(name) when given).  Passing a
+    non-const pointer/reference of a path to a callee counts as a write."""
+    out = {}
+    seen = set()
+
+    def visit(f, d, chain):
+        key = f.node
+        if key in seen:
+            return
+        seen.add(key)
+        for (_b, _i, ev) in f.events():
+            if ev["e"] == "write":
+                lf = path_leaf(ev.get("path"))
+                if lf:
+                    out.setdefault(resolve_leaf(lf, acc), chain + [short(ev.get("loc"))])
+            elif ev["e"] == "call":
+                for a in ev.get("args", []):
+                    if a.get("mode") in ("ptr", "ref") and a.get("path"):
+                        lf = path_leaf(a["path"])
+                        if lf:
+                            out.setdefault(resolve_leaf(lf, acc), chain + [short(ev.get("loc"))])
+                if d > 0:
+                    cal = ev["callee"]
+                    if follow is not None and not follow(cal):
+                        continue
+                    node = ev.get("inst", cal) + ev.get("sig", "")
+                    for g in db.get(cal):
+                        if g.node == node:
+                            visit(g, d - 1, chain + [cal.split("::")[-1]])
+    visit(func, depth, [])
+    return out
